@@ -109,6 +109,53 @@ def renderAt : Exp → Parens → Nat → List Token
 /-- the printer: minimal parentheses plus the redundant ones chosen by `ps` -/
 def render (e : Exp) (ps : Parens) : List Token := renderAt e ps 0
 
+/-! ### where a token sequence stops being an expression
+
+The expression grammar over these tokens, as the automaton of its viable prefixes: either an
+operand is due (then an atom, `(` or a unary operator may come) or an operand has just ended
+(then a binary operator, or `)` if a parenthesis is open).  `firstBad ts` is the index of the first
+token that no expression continues with — `ts.length` if the input ends while something is
+still due — i.e. the token a syntax error must be reported at. -/
+
+def Sym.isUnary : Sym → Bool
+  | .minus | .not | .hash | .tilde => true
+  | _ => false
+
+def Sym.isBinary : Sym → Bool
+  | .not | .hash => false
+  | _ => true
+
+structure PState where
+  /-- an operand is due (start, after an operator, after `(`) -/
+  expecting : Bool
+  /-- open parentheses -/
+  depth : Nat
+  deriving DecidableEq, Repr
+
+def stepTok (st : PState) : Token → Option PState
+  | .atom _ => if st.expecting then some { st with expecting := false } else none
+  | .lp => if st.expecting then some { st with depth := st.depth + 1 } else none
+  | .rp => if !st.expecting && 0 < st.depth then some { st with depth := st.depth - 1 } else none
+  | .sym s =>
+    if st.expecting then (if s.isUnary then some st else none)
+    else (if s.isBinary then some { st with expecting := true } else none)
+
+/-- run the automaton; `.error i` = token number `i` (counted from `i0`) is rejected -/
+def scan : PState → List Token → Nat → Except Nat PState
+  | st, [], _ => .ok st
+  | st, t :: r, i =>
+    match stepTok st t with
+    | some st' => scan st' r (i + 1)
+    | none => .error i
+
+def PState.start : PState := { expecting := true, depth := 0 }
+def PState.final (st : PState) : Bool := !st.expecting && st.depth == 0
+
+def firstBad (ts : List Token) : Option Nat :=
+  match scan .start ts 0 with
+  | .error i => some i
+  | .ok st => if st.final then none else some ts.length
+
 /-! ### multi-valued expressions in expression lists (manual §3.4.12)
 
 Function calls (incl. method calls) and `...` may deliver any number of values.  In a list of
